@@ -240,7 +240,7 @@ func navGet(root Val, path []int) Val {
 			}
 			root = r.e[i]
 		default:
-			panic(fmt.Sprintf("navGet: bad path %v in %T", path, root))
+			abort("unsupported", "field access into a modelled object (%T): a method of this library type has no model", root)
 		}
 	}
 	return root
@@ -260,7 +260,8 @@ func navSet(root Val, path []int, v Val) Val {
 		ne[i] = navSet(r.e[i], path[1:], v)
 		return ArrayVal{ne}
 	}
-	panic(fmt.Sprintf("navSet: bad path %v in %T", path, root))
+	abort("unsupported", "field store into a modelled object (%T)", root)
+	return nil
 }
 
 func (e *Engine) load(st *State, p PtrVal) Val {
